@@ -257,6 +257,20 @@ func badRule(shape string) (string, bool) {
 		return mk(func(r J) { r["when"] = J{"foo": []interface{}{1, 2}} }), true
 	case "arity-0":
 		return mk(func(r J) { r["when"] = J{"eq": []interface{}{}} }), true
+	case "not-arity-0":
+		return mk(func(r J) { r["when"] = J{"not": []interface{}{}} }), true
+	case "and-arity-0":
+		return mk(func(r J) { r["when"] = J{"and": []interface{}{}} }), true
+	case "plus-arity-0-nested":
+		return mk(func(r J) { r["when"] = J{"eq": []interface{}{J{"plus": []interface{}{}}, 1}} }), true
+	case "not-arity-0-in-then":
+		return mk(func(r J) { r["then"] = []interface{}{J{"call": []interface{}{"S.PutB", 1, J{"not": []interface{}{}}}}} }), true
+	case "call-args-null":
+		return mk(func(r J) { r["then"] = []interface{}{J{"call": nil}} }), true
+	case "set-null":
+		return mk(func(r J) { r["then"] = []interface{}{J{"set": nil}} }), true
+	case "when-null-operands":
+		return mk(func(r J) { r["when"] = J{"and": nil} }), true
 	case "arity-1-eq":
 		return mk(func(r J) { r["when"] = J{"eq": []interface{}{true}} }), true
 	case "arity-1-plus":
@@ -300,6 +314,15 @@ func badRule(shape string) (string, bool) {
 	}
 	return "", false
 }
+
+// a well-formed reference rule and its translation, taken before any malformed rule is seen by this process
+const refRuleJSON = `{"name":"Ref","desc":"reference","salience":3,"when":{"and":[{"gt":["S.A",1]},{"not":[{"obj":"S.T"}]}]},"then":[{"set":["S.A",{"plus":["S.A",1]}]},{"call":["Retract",{"const":"Ref"}]}]}`
+
+var refRuleGRL = func() string {
+	g, err := pkg.ParseJSONRule([]byte(refRuleJSON))
+	must(err)
+	return g
+}()
 
 var reJSONRule = regexp.MustCompile(`rule ([CD]\d+)`)
 
@@ -547,6 +570,17 @@ func cmdJSONReplay(args []string) {
 				}
 				if err := buildJSON(ast.NewKnowledgeLibrary(), "["+text+"]"); err == nil {
 					report(nil, c, raw, "malformed rule "+c.Shape+" inside a rule set", "an error", "accepted", "")
+				}
+				// a refused rule leaves the translator as it was: a well-formed rule translated next gets its own text
+				if got, err := pkg.ParseJSONRule([]byte(refRuleJSON)); err != nil || got != refRuleGRL {
+					g := got
+					if err != nil {
+						g = "error: " + err.Error()
+					}
+					report(nil, c, raw, "translation of a well-formed rule after the refused rule "+c.Shape, refRuleGRL, g, "")
+				}
+				if err := buildJSON(ast.NewKnowledgeLibrary(), "["+refRuleJSON+","+text+"]"); err == nil {
+					report(nil, c, raw, "malformed rule "+c.Shape+" behind a well-formed rule", "an error", "accepted", "")
 				}
 			}()
 			evals++
